@@ -1,7 +1,7 @@
 """C16 — pretty-printer layout contract."""
 from props import common
 
-MODULES = ["contracts.quoter", "contracts.pprint_c"]
+from props.plans import ALL_MODULES as MODULES
 
 LAYOUT = ("__init__", "whitespace", "add_start_line", "add_end_line", "__format_line", "compute_aligned_max_indent",
           "compute_max_key_length", "process_attribute", "process_key_dict", "process_dict", "process_config_dict",
